@@ -294,8 +294,18 @@ func TestC01ConstExact(t *testing.T) {
 		s := new(big.Int).Div(new(big.Int).Mul(big.NewInt(int64(c.P.Freq)), big.NewInt(c.Elapsed)), big.NewInt(c.P.Per))
 		iv := c.P.Per / int64(c.P.Freq)
 		var base *big.Int
-		kind := rapid.IntRange(0, 3).Draw(t, "hk")
+		kind := rapid.IntRange(0, 5).Draw(t, "hk")
+		two64 := new(big.Int).Lsh(big.NewInt(1), 64)
 		switch {
+		case kind == 4: // where (hits+1)*Per or (hits+1)*Freq leaves 64 bits
+			base = new(big.Int).Div(two64, big.NewInt(rapid.SampledFrom([]int64{c.P.Per, int64(c.P.Freq)}).Draw(t, "wrapdiv")))
+		case kind == 5 && iv > 0: // anywhere between 0 and the overflow boundary, log-uniform
+			hi := new(big.Int).Div(big.NewInt(math.MaxInt64), big.NewInt(iv))
+			bits := rapid.IntRange(1, hi.BitLen()+1).Draw(t, "hbits")
+			base = new(big.Int).Rsh(hi, uint(hi.BitLen()+1-bits))
+			base.Add(base, new(big.Int).SetUint64(rapid.Uint64Range(0, 1<<20).Draw(t, "hjit")))
+		case kind == 5:
+			base = new(big.Int).SetUint64(rapid.Uint64().Draw(t, "hany2"))
 		case kind == 0:
 			base = s
 		case kind == 1 && iv > 0:
@@ -314,11 +324,11 @@ func TestC01ConstExact(t *testing.T) {
 		}
 		c.Hits = base.Uint64()
 		sig, _ := json.Marshal(c)
-		labels := []string{[]string{"hits~S(elapsed)", "hits~overflow-boundary", "hits-edge", "hits-any"}[kind]}
+		labels := []string{[]string{"hits~S(elapsed)", "hits~overflow-boundary", "hits-edge", "hits-any", "hits~2^64/Per", "hits-loguniform-below-boundary"}[kind]}
 		if iv == 0 {
 			labels = append(labels, "more-than-1-hit-per-ns")
 		}
-		vh.Case("C01.const-exact", string(sig), kind <= 1, labels...)
+		vh.Case("C01.const-exact", string(sig), kind <= 1 || kind >= 4, labels...)
 		vh.Sample("C01.const-exact", kind <= 1, c)
 		if err := runC01ConstExact(c); err != nil {
 			vh.Fail(t, "C01", "C01.const-exact", c, err)
@@ -334,9 +344,10 @@ type c01Stall struct {
 }
 
 type c01Traj struct {
-	P      c01Pacer
-	Steps  int
-	Stalls []c01Stall
+	P         c01Pacer
+	Steps     int
+	Stalls    []c01Stall
+	StartHits uint64 // constant pacer only: the loop starts on schedule after this many hits (instant StartHits*interval)
 }
 
 type c01Outcome struct {
@@ -364,6 +375,14 @@ func simC01(c c01Traj) (c01Outcome, error) {
 		k       uint64
 		stalled bool
 	)
+	if c.P.Kind == "constant" && c.StartHits > 0 {
+		// an attacker that has followed the pacer exactly so far stands at the release instant of hit StartHits
+		iv := c.P.Per / int64(c.P.Freq)
+		if iv > 0 && c.StartHits < uint64(c01MaxNow/iv) {
+			k, now = c.StartHits, int64(c.StartHits)*iv
+		}
+	}
+	k0 := k
 	eps := func(s float64) float64 { return 1e-2 + 1e-9*math.Abs(s) }
 	for step := 0; step < c.Steps; step++ {
 		var (
@@ -391,8 +410,19 @@ func simC01(c c01Traj) (c01Outcome, error) {
 			}
 			return out, fmt.Errorf("%s step %d: Pace(%d, %d) says stop on a valid configuration with nothing near overflow (S(now)=%.4f)", c.P, step, now, k, sNow)
 		}
+		// the constant pacer's schedule is rational: compare exactly (S(t) >= n  <=>  Freq*t >= n*Per)
+		exact := c.P.Kind == "constant"
+		schedCmp := func(t int64, n uint64, slackHits int64) int { // sign of S(t) - (n + slackHits)
+			l := new(big.Int).Mul(big.NewInt(int64(c.P.Freq)), big.NewInt(t))
+			r := new(big.Int).Add(new(big.Int).SetUint64(n), big.NewInt(slackHits))
+			return l.Cmp(r.Mul(r, big.NewInt(c.P.Per)))
+		}
 		// P2: a positive wait only when the count is on or ahead of the schedule (whole hits)
-		if w > 0 && sNow >= float64(k)+1+eps(sNow) {
+		if exact {
+			if w > 0 && schedCmp(now, k, 1) >= 0 {
+				return out, fmt.Errorf("%s step %d: Pace(%d, %d) = %s although the attacker is behind: S(now) >= hits+1 (exact)", c.P, step, now, k, w)
+			}
+		} else if w > 0 && sNow >= float64(k)+1+eps(sNow) {
 			return out, fmt.Errorf("%s step %d: Pace(%d, %d) = %s although the attacker is behind: S(now)=%.4f >= hits+1", c.P, step, now, k, w, sNow)
 		}
 		if w > 0 {
@@ -411,14 +441,30 @@ func simC01(c c01Traj) (c01Outcome, error) {
 		q := int64(k + 1) // one nanosecond of quantisation per hit interval
 		// P1: the count after the release exceeds the schedule by at most one hit
 		sR := c.P.schedule(r + q)
-		if float64(k+1) > sR+1+eps(sR) {
+		if exact {
+			// upper bound: the statement grants no allowance at all; the harness grants the rounding loss of
+			// an integer-nanosecond interval, (Per mod Freq)/Freq ns per hit, which is <= 1 ns per hit
+			q1 := new(big.Int).Mul(new(big.Int).SetUint64(k+1), big.NewInt(c.P.Per%int64(c.P.Freq)))
+			q1.Div(q1, big.NewInt(int64(c.P.Freq)))
+			qq := q
+			if q1.IsInt64() && q1.Int64()+1 < q {
+				qq = q1.Int64() + 1
+			}
+			if schedCmp(r+qq, k, 0) < 0 { // k+1 > S(r+qq)+1
+				return out, fmt.Errorf("%s step %d: hit %d released at %d ns (Pace(%d, %d) = %s) but S(%d ns) < %d (exact): count exceeds the schedule by more than one hit", c.P, step, k+1, r, now, k, w, r+q, k)
+			}
+		} else if float64(k+1) > sR+1+eps(sR) {
 			return out, fmt.Errorf("%s step %d: hit %d released at %d ns (Pace(%d, %d) = %s) but S(%d ns) = %.4f: count exceeds the schedule by %.4f hits (> 1)", c.P, step, k+1, r, now, k, w, r+q, sR, float64(k+1)-sR)
 		}
 		// P3: at the release instant the count is at most one hit behind (constant, sine); whenever
 		// the pacer itself chose the instant (positive wait), and at every step of stall-free runs.
 		if lowerBound && (w > 0 || !stalled) {
 			sB := c.P.schedule(r - q)
-			if sB-float64(k) > 1+eps(sB) {
+			if exact {
+				if r-q > 0 && schedCmp(r-q, k, 1) > 0 { // S(r-q) - k > 1
+					return out, fmt.Errorf("%s step %d: hit %d released at %d ns (Pace(%d, %d) = %s) but S(%d ns) > %d (exact): count is more than one hit behind the schedule", c.P, step, k+1, r, now, k, w, r-q, k+1)
+				}
+			} else if sB-float64(k) > 1+eps(sB) {
 				return out, fmt.Errorf("%s step %d: hit %d released at %d ns (Pace(%d, %d) = %s) but S(%d ns) = %.4f: count is %.4f hits behind the schedule (> 1)", c.P, step, k+1, r, now, k, w, r-q, sB, sB-float64(k))
 			}
 		}
@@ -433,7 +479,7 @@ func simC01(c c01Traj) (c01Outcome, error) {
 			now += d
 			stalled = true
 		}
-		if c.P.schedule(now) > 1e12 {
+		if c.P.schedule(now) > 1e12 && k0 == 0 {
 			out.endedBy = "schedule-bound"
 			return out, nil
 		}
@@ -532,6 +578,17 @@ func c01GenTraj(t *rapid.T) c01Traj {
 			c.P.SlopeBits = math.Float64bits(-c01LogUniform(t, "slope", 1e-3, 1e6))
 		}
 	}
+	if c.P.Kind == "constant" && rapid.IntRange(0, 3).Draw(t, "late-start") == 0 {
+		// long-running attacks: start deep into the schedule (up to where int64 nanoseconds end)
+		if iv := c.P.Per / int64(c.P.Freq); iv > 0 {
+			maxK := uint64(c01MaxNow/iv) - uint64(c.Steps) - 2
+			if maxK > 1 && maxK < 1<<62 {
+				bits := rapid.IntRange(1, 62).Draw(t, "startbits")
+				c.StartHits = rapid.Uint64Range(0, maxK).Draw(t, "starthits") >> uint(62-bits) // log-uniform-ish
+			}
+		}
+		return c
+	}
 	if rapid.IntRange(0, 2).Draw(t, "stallfree") != 0 {
 		n := rapid.IntRange(1, 12).Draw(t, "nstalls")
 		interval := 1e9 / meanRate
@@ -579,6 +636,9 @@ func TestC01Trajectory(t *testing.T) {
 		}
 		if c.P.Kind == "linear" && c.P.slope() < 0 {
 			labels = append(labels, "negative-slope")
+		}
+		if c.StartHits > 0 {
+			labels = append(labels, "late-start")
 		}
 		if c.P.Kind == "sine" && float64(c.P.AmpFreq)/float64(c.P.AmpPer) >= 0.9*float64(c.P.Freq)/float64(c.P.Per) {
 			labels = append(labels, "amp>=0.9mean")
